@@ -2,6 +2,7 @@ package rules
 
 import (
 	"go/ast"
+	"go/token"
 	"go/types"
 	"sort"
 	"strings"
@@ -43,10 +44,36 @@ func HashRules(c *core.Ctx, p *packages.Package) {
 	c.Rule("R-HASHDET", "inside a hash function the value flows only into component Hash calls, accessors and arithmetic — no unsafe/reflect/uintptr/%p/map iteration/time/rand/maphash (a pointer-identity or seed-dependent hash contradicts an Eqv that compares contents)")
 	info := p.TypesInfo
 	n := 0
+	// scopes: bodies of declared functions and the initialisers of package-level variables (var Bytes = New(…))
+	type hscope struct {
+		Name string
+		Body ast.Node
+	}
+	var scopes []hscope
 	for _, fb := range funcBodies(c, []*packages.Package{p}) {
-		if fb.Lit != nil {
-			continue
+		if fb.Lit == nil {
+			scopes = append(scopes, hscope{fb.Name, fb.Body})
 		}
+	}
+	for _, f := range p.Syntax {
+		for _, d := range f.Decls {
+			gd, ok := d.(*ast.GenDecl)
+			if !ok || gd.Tok != token.VAR {
+				continue
+			}
+			for _, sp := range gd.Specs {
+				vs := sp.(*ast.ValueSpec)
+				for i, v := range vs.Values {
+					nm := "_"
+					if i < len(vs.Names) {
+						nm = vs.Names[i].Name
+					}
+					scopes = append(scopes, hscope{"hash.var:" + nm, v})
+				}
+			}
+		}
+	}
+	for _, fb := range scopes {
 		k := 0
 		ast.Inspect(fb.Body, func(x ast.Node) bool {
 			call, ok := x.(*ast.CallExpr)
@@ -108,6 +135,13 @@ func HashRules(c *core.Ctx, p *packages.Package) {
 							}
 							if pn, ok := info.Uses[id].(*types.PkgName); ok && pn.Imported().Path() == "math" && strings.HasSuffix(s.Sel.Name, "bits") {
 								why = "hashes the bit pattern of a float (math." + s.Sel.Name + "): values equal under == (0.0 and -0.0) get different hashes"
+							}
+						}
+					case *ast.Ident:
+						// shared state: a package-level variable that is not itself a typeclass instance or a function
+						if v, ok := info.Uses[s].(*types.Var); ok && v.Pkg() != nil && v.Parent() == v.Pkg().Scope() {
+							if _, isFn := v.Type().Underlying().(*types.Signature); !isFn && !isTypeclassRecv(v.Type()) {
+								why = "uses the package-level variable " + v.Name() + " (state shared by all callers: concurrent Hash calls interfere, so Hash is not a function of its argument)"
 							}
 						}
 					case *ast.RangeStmt:
